@@ -93,6 +93,11 @@ def main_configs(chk):
         a = dict(a)
         a[TPL] = 0
         out.append((name, a, "main"))
+    # TPL on (the library default) in the main sweep again since the quantizer-table race was repaired (0e5755e): any difference is a VIOLATION.
+    # One stream is longer than the parent-PCS pool (~31 pictures at lp 4), so that every picture control set, with its me_ready
+    # handshake state, is recycled several times (seeded change C04-1: a recycled PCS keeps me_ready = 1).
+    out.append(("tpl-long-recycle", dict(w=256, h=144, n=80, bd=8, content=4, **{E: 8, LP: 4, "cfg.hierarchical_levels": 3, TPL: 1}), "main"))
+    out.append(("tpl-m6-10bit", dict(w=192, h=128, n=12, bd=10, content=4, **{E: 6, LP: 4, TPL: 1}), "main"))
     return out
 
 
